@@ -15,6 +15,9 @@ fn $fm(x: R, y: R, z: R) {
     vassert_eq("Matrix4::from(Euler) = embed", Matrix4::from(e), Matrix4::from(want));
     vassert_eq("Matrix4 = Rx Ry Rz (4x4)", Matrix4::from(e), Matrix4::from_angle_x($A(x)) * Matrix4::from_angle_y($A(y)) * Matrix4::from_angle_z($A(z)));
     vassert_eq("Basis3::from(Euler)", Matrix3::from(Basis3::from(e)), want);
+    // and composed in the Basis3 type itself (its own Mul and from_angle_* constructors)
+    let (bx, by, bz): (Basis3<R>, Basis3<R>, Basis3<R>) = (Rotation3::from_angle_x($A(x)), Rotation3::from_angle_y($A(y)), Rotation3::from_angle_z($A(z)));
+    vassert_eq("Basis3: Rx Ry Rz", Matrix3::from(bx * by * bz), want);
     vcover("end");
 }
 // Quaternion from Euler = qx qy qz of the half-angle axis quaternions
@@ -89,6 +92,36 @@ fn c07_lemma_small(a: R, b: R, c: R) {
     vassert("|a| <= 0.13", (a <= R(0.13)) & (a >= R(-0.13)));
     vassert("|b| <= 0.13", (b <= R(0.13)) & (b >= R(-0.13)));
     vassert("|c| <= 1", (c <= R(1.0)) & (c >= R(-1.0)));
+    vcover("end");
+}
+// ---- at the exact pole (qz = +-qx, qy = +-qw, i.e. qx qz + qy qw = +-1/2) the decomposition x = 0, y = +-pi/2,
+// z = +-2 atan2(qx, qw) is exact, so there all nine entries -- the four that involve z included -- are within 0.13.
+// (Only a necessary condition for the cone clause, but it is the one that pins the sign and the branch of z.)
+fn c07_lemma_pole(s: R, c: R, r: R, qx: R, qw: R) {
+    vassume_eq(r * s, qx); vassume_eq(r * c, qw); vassume_eq(r * r, R(0.5));
+    vassert_eq("2 s c = 4 qx qw", R(2.0) * s * c, R(4.0) * qx * qw);
+    vassert_eq("c^2 - s^2 = 2 (qw^2 - qx^2)", c * c - s * s, R(2.0) * (qw * qw - qx * qx));
+    vcover("end");
+}
+fn c07_gimbal_pole(qx: R, qw: R, plus: bool) {
+    vassume_eq(R(2.0) * (qx * qx + qw * qw), R(1.0));
+    let q = if plus { vcover("pole +"); Quaternion::new(qw, qx, qw, qx) } else { vcover("pole -"); Quaternion::new(qw, qx, -qw, -qx) };
+    let e: Euler<Rad<R>> = q.into();
+    let m = a3(Matrix3::from(e)); let w = a3(Matrix3::from(q));
+    // proof script: theta = atan2(qx, qw) has r sin = qx, r cos = qw with r^2 = 1/2; z = +-2 theta
+    let th = Rad::atan2(qx, qw); let (s, c) = (Rad::sin(th), Rad::cos(th)); let r = (qx * qx + qw * qw).sqrt();
+    vlemma_eq("r^2 = 1/2", r * r, R(0.5));
+    vlemma_eq("r sin = qx, r cos = qw", [r * s, r * c], [qx, qw]);
+    c07_lemma_pole(s, c, r, qx, qw);
+    let z2 = th * R(2.0);
+    vlemma_eq("sin 2 theta, cos 2 theta", [Rad::sin(z2), Rad::cos(z2)], [R(2.0) * s * c, c * c - s * s]);
+    let sg = if plus { R(1.0) } else { R(-1.0) };
+    vlemma_eq("x = 0, y = +-pi/2", [Rad::sin(e.x), Rad::cos(e.x), Rad::sin(e.y), Rad::cos(e.y)], [R(0.0), R(1.0), sg, R(0.0)]);
+    vlemma_eq("sin z, cos z", [Rad::sin(e.z), Rad::cos(e.z)], [sg * R(2.0) * s * c, c * c - s * s]);
+    let mut col = 0; while col < 3 { let mut row = 0; while row < 3 {
+        let d = m[col][row] - w[col][row];
+        vassert("rebuilt within 0.13 at the pole", (d <= R(0.13)) & (d >= R(-0.13)));
+        row += 1; } col += 1; }
     vcover("end");
 }
 fn c07_gimbal_partial(q: Quaternion<R>) {
